@@ -8,27 +8,31 @@ From DW Require Import PyStr FieldsMissing FieldsMissingProofs.
 Section C09.
 Variables ty raw V : Type.
 Variable conv : ty -> raw -> option V.
+(* which (class, field) pairs are keyword-only; `kw_safe kwonly e c` is the complement of
+   the region of open finding F43: it is `true` for the default engine, and for v1 says
+   that no class of the tree has a REQUIRED keyword-only init field *)
+Variable kwonly : pstr -> pstr -> bool.
 
 (* For EVERY class tree (any mix of required / default / default_factory / init=False
    fields, nested dataclasses, lists of dataclasses, any depth), every complete document
    d and every document d' obtained from d by deleting ANY set of keys at ANY depth
    (no bound on the number of keys), both engines: the load of d' is what the
    specification says (identities of factory products aside, see C09_factory_fresh). *)
-Theorem C09_subset :
+Theorem C09_subset_partial :
   forall e (c : cls ty V) (d d' : jv raw) n,
-  wf_cls c = true -> complete conv c d -> deleted d' d ->
-  erase_res (fst (load conv e c d' n)) = spec conv e c d'.
+  wf_cls c = true -> kw_safe kwonly e c = true -> complete conv c d -> deleted d' d ->
+  erase_res (fst (load conv kwonly e c d' n)) = spec conv e c d'.
 Proof.
-  intros e c d d' n Hwf Hc Hd. apply load_refines_spec; [exact Hwf|].
+  intros e c d d' n Hwf Hkw Hc Hd. apply load_refines_spec; [exact Hwf|exact Hkw|].
   apply partial_uniq with (conv := conv). eapply deleted_partial; eauto.
 Qed.
 
 (* The same without reference to a complete document: for every document whose dicts
    have unique keys (always true of a Python dict). *)
-Theorem C09_refines :
+Theorem C09_refines_partial :
   forall e (c : cls ty V) (d : jv raw) n,
-  wf_cls c = true -> uniq c d -> erase_res (fst (load conv e c d n)) = spec conv e c d.
-Proof. intros e c d n Hwf Hu. now apply load_refines_spec. Qed.
+  wf_cls c = true -> kw_safe kwonly e c = true -> uniq c d -> erase_res (fst (load conv kwonly e c d n)) = spec conv e c d.
+Proof. intros e c d n Hwf Hkw Hu. now apply load_refines_spec. Qed.
 
 (* What the specification says, declaratively (complete document minus deletions):
    the load succeeds exactly when no dataclass position, at whatever depth, omits a
@@ -63,12 +67,13 @@ Qed.
    loaded value and every other field its default (None = attribute unset: init=False
    without default); otherwise MissingFields(cls, exactly the required init fields in S,
    in declaration order). *)
-Theorem C09_subset_top :
+Theorem C09_subset_top_partial :
   forall e cn (fs : list (fdecl ty V (cls ty V))) (m : list (pstr * jv raw)) (S : list pstr) n,
-  wf_cls (Cls cn fs) = true -> complete conv (Cls cn fs) (JDict m) ->
+  wf_cls (Cls cn fs) = true -> kw_safe kwonly e (Cls cn fs) = true ->
+  complete conv (Cls cn fs) (JDict m) ->
   match required_in fs S with
   | [] => exists attrs,
-      erase_res (fst (load conv e (Cls cn fs) (JDict (remove_keys S m)) n)) = Ok (PInst cn attrs) /\
+      erase_res (fst (load conv kwonly e (Cls cn fs) (JDict (remove_keys S m)) n)) = Ok (PInst cn attrs) /\
       forall f, In f fs ->
         (finit f = true -> mem_str (fname f) S = false ->
            exists v x, assoc (fname f) m = Some v /\
@@ -77,7 +82,7 @@ Theorem C09_subset_top :
         (finit f = false \/ mem_str (fname f) S = true ->
            assoc (fname f) attrs = default_slot (fdef f))
   | ms => exists provided,
-      fst (load conv e (Cls cn fs) (JDict (remove_keys S m)) n) = Err (EMissingFields cn provided ms)
+      fst (load conv kwonly e (Cls cn fs) (JDict (remove_keys S m)) n) = Err (EMissingFields cn provided ms)
   end.
 Proof. intros. now apply subset_top. Qed.
 
@@ -86,21 +91,22 @@ Proof. intros. now apply subset_top. Qed.
 Theorem C09_factory_fresh :
   forall e (c : cls ty V) (d1 d2 : jv raw) n v1 n1 v2 n2,
   wf_cls c = true ->
-  load conv e c d1 n = (Ok v1, n1) -> load conv e c d2 n1 = (Ok v2, n2) ->
+  load conv kwonly e c d1 n = (Ok v1, n1) -> load conv kwonly e c d2 n1 = (Ok v2, n2) ->
   NoDup (ids v1 ++ ids v2).
 Proof. intros. eapply two_loads_fresh; eauto. Qed.
 
 End C09.
 
-Print Assumptions C09_subset.
-Print Assumptions C09_refines.
+Print Assumptions C09_subset_partial.
+Print Assumptions C09_refines_partial.
 Print Assumptions C09_ok_iff.
 Print Assumptions C09_error_exact.
-Print Assumptions C09_subset_top.
+Print Assumptions C09_subset_top_partial.
 Print Assumptions C09_factory_fresh.
 
 (* ---- non-vacuity: a concrete class tree, a complete document, a deletion ------------- *)
 Definition xconv (t r : pstr) : option pstr := Some r.
+Definition xkw (cn fn : pstr) : bool := false.          (* no keyword-only field *)
 Definition XInner : cls pstr pstr :=
   Cls (S "Inner") [FD (S "p") Required true (KLeaf (S "int"));
                    FD (S "q") (Default (S "5")) true (KLeaf (S "int"));
@@ -161,15 +167,44 @@ Qed.
 
 (* on that document the first failing position in each engine's order is items[1] *)
 Example C09_example_outcome :
-  fst (load xconv V0 XOuter xdel 0%N) = Err (EMissingFields (S "Inner") [S "q"; S "r"] [S "p"]) /\
-  fst (load xconv V1 XOuter xdel 0%N) = Err (EMissingFields (S "Inner") [] [S "p"]).
+  fst (load xconv xkw V0 XOuter xdel 0%N) = Err (EMissingFields (S "Inner") [S "q"; S "r"] [S "p"]) /\
+  fst (load xconv xkw V1 XOuter xdel 0%N) = Err (EMissingFields (S "Inner") [] [S "p"]).
 Proof. split; vm_compute; reflexivity. Qed.
 
 (* and deleting only defaulted keys succeeds with fresh factory products *)
 Example C09_example_defaults :
-  fst (load xconv V1 XOuter (JDict [(S "a", xa "1"); (S "inn", JDict [(S "p", xa "1")]); (S "items", JList [])]) 0%N)
+  fst (load xconv xkw V1 XOuter (JDict [(S "a", xa "1"); (S "inn", JDict [(S "p", xa "1")]); (S "items", JList [])]) 0%N)
   = Ok (PInst (S "Outer")
          [(S "a", PVal (S "1"));
           (S "inn", PInst (S "Inner") [(S "p", PVal (S "1")); (S "q", PVal (S "5")); (S "r", PFac 1%N 0%N)]);
           (S "items", PList []); (S "b", PVal (S "3")); (S "c", PFac 2%N 1%N); (S "w", PVal (S "9"))]).
 Proof. vm_compute. reflexivity. Qed.
+
+Example C09_example_kw_safe : kw_safe xkw V1 XOuter = true /\ kw_safe xkw V0 XOuter = true.
+Proof. split; vm_compute; reflexivity. Qed.
+
+(* ---- F43 (open): v1 and a required keyword-only field ------------------------------------
+   class A: a: int; k: int = field(kw_only=True).  The COMPLETE document {a, k} has no
+   omission, the specification (and the default engine) return the instance, but the v1
+   loader calls A(__a, __k) and a bare TypeError escapes. *)
+Definition KA : cls pstr pstr :=
+  Cls (S "A") [FD (S "a") Required true (KLeaf (S "int")); FD (S "k") Required true (KLeaf (S "int"))].
+Definition kkw (cn fn : pstr) : bool := pstr_eqb fn (S "k").
+Definition kdoc : jv pstr := JDict [(S "a", xa "1"); (S "k", xa "5")].
+
+Theorem C09_v1_refuted_kwonly :
+  exists (c : cls pstr pstr) (kw : pstr -> pstr -> bool) (d : jv pstr),
+    wf_cls c = true /\ kw_safe kw V1 c = false /\ complete xconv c d /\
+    spec xconv V1 c d = Ok (PInst (S "A") [(S "a", PVal (S "1")); (S "k", PVal (S "5"))]) /\
+    fst (load xconv kw V0 c d 0%N) = Ok (PInst (S "A") [(S "a", PVal (S "1")); (S "k", PVal (S "5"))]) /\
+    fst (load xconv kw V1 c d 0%N) = Err (EBareType (S "A")).
+Proof.
+  exists KA, kkw, kdoc. split; [vm_compute; reflexivity|]. split; [vm_compute; reflexivity|]. split.
+  - constructor.
+    + repeat constructor; cbn; intuition discriminate.
+    + intro k. cbn. tauto.
+    + intros f v Hf I E. cbn in Hf. destruct Hf as [<-|[<-|[]]]; cbn in E; injection E as <-;
+        econstructor; reflexivity.
+  - repeat split; vm_compute; reflexivity.
+Qed.
+Print Assumptions C09_v1_refuted_kwonly.
